@@ -151,6 +151,10 @@ var authorizer = runtime.AuthorizerFunc(func(r *http.Request, principal interfac
 		if principal == principals[0] {
 			return errAzPlain
 		}
+	case "denyNil":
+		if principal == nil {
+			return errAzPlain
+		}
 	}
 	return nil
 })
